@@ -140,7 +140,7 @@ Theorem C09_lazy_print_shtab_key_refuted :
     snd (step pinned Ds (run pinned Ds (init n) ops) o) <> snd (step pinned Ds (init n) o) /\
     guard_class pinned (run pinned Ds (init n) ops) o = 2%N /\
     snd (step pinned Ds (run pinned Ds (init n) ops) o) = OOk true /\
-    snd (step pinned Ds (init n) o) = OErr EPost.
+    snd (step pinned Ds (init n) o) = OErr (EUnknown s_print_shtab).
 Proof.
   exists [d_plain; d_plain], 2%nat, [call 0 (PArgs [TOpt s_k s_2])],
          (call 0 (PObject [(s_k, s_3); (s_print_shtab, s_bash)])).
@@ -202,7 +202,7 @@ Example C09_repaired_example :
   snd (step repaired [d_plain] (run repaired [d_plain] (init 1) [call 0 (PArgs [TFlag s_print_config; TOpt s_k s_bad])])
          (call 0 (PArgs []))) = OOk false /\
   snd (step repaired [d_plain] (run repaired [d_plain] (init 1) [call 0 (PArgs [TOpt s_k s_2])])
-         (call 0 (PObject [(s_k, s_3); (s_print_shtab, s_bash)]))) = OErr EPost /\
+         (call 0 (PObject [(s_k, s_3); (s_print_shtab, s_bash)]))) = OErr (EUnknown s_print_shtab) /\
   snd (step repaired [d_cb; d_model] (run repaired [d_cb; d_model] (init 2) [call 0 (PArgs [TOpt s_cb_help s_SubA])])
          (call 1 (PArgs [TOpt s_model_help s_SubA]))) = OHelpCls false.
 Proof. vm_compute. repeat split. Qed.
